@@ -103,6 +103,7 @@ func runC15(c *mon.Ctx) {
 		"then the real answer for a different password (one bit, appended NUL, truncated, other) must be rejected by the same verifier. B is presented padded, stripped, or with extra leading zeros. " +
 		"hostile-B arm: B = empty, 0, 1, p-1, p, 2p, k*v (t = 0), 2^2048-1, 300 random bytes: no panic, and for B < 2^2048 the spec formula still decides (A, M1). " +
 		"bad-group arm: non-2048-bit safe primes, primes with composite (p-1)/2, composites, p+2, bit flips, empty/zero p, g outside 2..7 and non-residue g: Hash and NewHash must return an error and an empty answer. " +
+		"history arm: Hash/NewHash with a valid (g, p), then EVERY inadmissible g on the same p, refused moduli presented repeatedly, the valid group again (answers must still equal the reference), reversed with 3x repeats, from 2-3 goroutines; and after the main arm every inadmissible g of every prime is presented again. " +
 		"new-hash arm: NewHash = pad2048(g^PH2(password, salt1 || 32 random bytes, salt2)). distinct non-trivial = distinct (arm, group, g, password class, secret class, B encoding, salt length buckets, outcome)")
 	c.Assume("refmodel/crypto2_srp.go transcribes core.telegram.org/api/srp (own PBKDF2-HMAC-SHA512 per RFC 8018 over crypto/hmac); math/big, crypto/sha256, crypto/sha512 are shared with the code under test")
 	c.Assume("a wrong password passing the verifier by a SHA256 collision is not a realistic false alarm")
@@ -192,9 +193,26 @@ func runC15(c *mon.Ctx) {
 		}
 	}
 	var guardBroken atomic.Bool
+	// history: once every prime has been used in valid calls (main arm), all its inadmissible g are presented again
+	var late []job
+	for i := range bad {
+		if bad[i].class == "g-outside-2..7" || bad[i].class == "g-non-residue" {
+			late = append(late, job{"bad-group-after-valid-use", i})
+		}
+	}
+	histDone := make(chan struct{})
+	go func() {
+		defer close(histDone)
+		defer func() {
+			if p := recover(); p != nil {
+				c.Inconclusive(fmt.Sprintf("history arm panicked in the harness: %v", p))
+			}
+		}()
+		c15History(c, ms)
+	}()
 
 	var accepted, rejectedWrong atomic.Int64
-	parallel(len(jobs), func(ji int) {
+	runJob := func(jobs []job, ji int) {
 		j := jobs[ji]
 		r := c.RandN("c15-"+j.arm, j.i)
 		gr := groups[(j.i*7+ji)%len(groups)]
@@ -355,7 +373,7 @@ func runC15(c *mon.Ctx) {
 				c.Sample("new-hash", map[string]any{"group": gr.Name, "g": gr.G, "new_salt_len": len(newSalt)})
 			}
 
-		case "bad-group":
+		case "bad-group", "bad-group-after-valid-use":
 			b := bad[j.i]
 			if degenerate(b) && guardBroken.Load() {
 				c.Add("degenerate_moduli_skipped_after_guard_violation", 1)
@@ -369,6 +387,10 @@ func runC15(c *mon.Ctx) {
 			}
 			if err == nil || ans.A != nil || ans.M1 != nil {
 				guardBroken.Store(true)
+				if j.arm == "bad-group-after-valid-use" {
+					c.Violate("history|SRP.Hash|valid-p-then-invalid-g-accepted|"+b.class, wit("err", fmt.Sprint(err), "A", hx(ans.A), "M1", hx(ans.M1)))
+					return
+				}
 				c.Violate("srp|invalid-group-not-refused|"+b.class, wit("err", fmt.Sprint(err), "A", hx(ans.A), "M1", hx(ans.M1)))
 			}
 			if j.i%3 == 0 || b.class == "empty-p" || b.class == "zero-p" {
@@ -382,10 +404,13 @@ func runC15(c *mon.Ctx) {
 					c.Violate("newhash|invalid-group-not-refused|"+b.class, wit("err", fmt.Sprint(e2)))
 				}
 			}
-			c.Distinct(fmt.Sprintf("bad-group/%s/g%d", b.class, b.g))
+			c.Distinct(fmt.Sprintf("%s/%s/g%d", j.arm, b.class, b.g))
 			c.Sample("bad-group", map[string]any{"class": b.class, "g": b.g, "err": fmt.Sprint(err)})
 		}
-	})
+	}
+	parallel(len(jobs), func(ji int) { runJob(jobs, ji) })
+	parallel(len(late), func(ji int) { runJob(late, ji) })
+	<-histDone
 	c.Set("correct_password_accepted", accepted.Load())
 	c.Set("wrong_password_rejected", rejectedWrong.Load())
 	c.Set("bad_groups", len(bad))
